@@ -31,6 +31,12 @@ structure IParams (K : Type) where
   rtol : K
   nsOf : K → ℕ
 
+/-- `np.sqrt` made trustworthy for the theorems that need a square root that is never too small: whatever routine
+proposes the root, its answer is used only after the exact check `0 ≤ r ∧ x ≤ r²`; otherwise `x + 1` (which passes the
+check for every `x ≥ 0`) is used.  `checkedSqrtUp_spec` (Props/C15Improve.lean). -/
+def checkedSqrtUp (propose : K → K) (x : K) : K :=
+  if 0 ≤ propose x ∧ x ≤ propose x ^ 2 then propose x else x + 1
+
 /-- the state of the second phase (`sd` is recomputed by every pass) -/
 structure ISt (n : ℕ) (K : Type) where
   step : Fin n → K
